@@ -11,10 +11,10 @@
 (* satisfies black list and in-degree bound (the statement excludes the    *)
 (* others).                                                                *)
 (*                                                                         *)
-(* Step: compute the legal operations; if there is none or the best score  *)
-(* change is < eps, stop; otherwise apply AN arg-max operation (every tie  *)
-(* is a successor), push its inverse on the bounded tabu list.  MaxIter    *)
-(* ends the run after maxiter iterations.                                  *)
+(* Iterate: compute the legal operations; if there is none or the best     *)
+(* score change is < eps, stop; otherwise apply AN arg-max operation       *)
+(* (every tie is a successor), push its inverse on the bounded tabu list.  *)
+(* MaxIter ends the run after maxiter iterations.                          *)
 (*                                                                         *)
 (* Invariants (design level):                                              *)
 (*   Safe        in EVERY state: acyclic, fixed edges present, no black    *)
@@ -32,71 +32,85 @@
 (* choice = the set of results the real code may return.                   *)
 (***************************************************************************)
 EXTENDS SearchLib, Json, IOUtils
-CONSTANT MaxN
+CONSTANTS MaxN, Mode          \* Mode = "run" (step machine) | "lemma" (graph lemmas on EVERY DAG)
 Insts == JsonDeserialize(IOEnv.INST_FILE)
 
 Tokens == <<"v0", "v1", "v2", "v3", "v4", "v5">>
 NodeSet(n) == {Tokens[i] : i \in 1..n}
 DagTab == [k \in 1..MaxN |-> AllDAGs(NodeSet(k))] @@ <<>>
 
-VARIABLES ii, cf, E, tabu, it, st
-vars == <<ii, cf, E, tabu, it, st>>
+VARIABLES ii, cf, E, tabu, it, st, hist
+vars == <<ii, cf, E, tabu, it, st, hist>>
 I == Insts[ii]
 N == ToSet(I.nodes)
 C == [fixed |-> ToSet(I.fixed), black |-> ToSet(I.black), white |-> ToSet(I.white), maxin |-> cf.maxin]
 E0 == cf.start \cup ToSet(I.fixed)
+NoCf == [start |-> {}, maxin |-> 0, tabu |-> 0, eps |-> 1, maxiter |-> 0]
 
 Starts(inst) == IF inst.allstarts THEN DagTab[Len(inst.nodes)] ELSE {ToSet(s) : s \in ToSet(inst.starts)}
 
 Init == /\ ii \in 1..Len(Insts)
-        /\ cf \in {c \in [start : Starts(Insts[ii]), maxin : ToSet(Insts[ii].maxins), tabu : ToSet(Insts[ii].tabus),
-                         eps : ToSet(Insts[ii].epss), maxiter : ToSet(Insts[ii].maxiters)] :
-                    LET n == ToSet(Insts[ii].nodes)
-                        e0 == c.start \cup ToSet(Insts[ii].fixed) IN
-                    /\ Acyclic(n, e0)
-                    /\ e0 \cap ToSet(Insts[ii].black) = {}
-                    /\ \A v \in n : Cardinality(Pa(e0, v)) <= c.maxin}
-        /\ E = cf.start \cup ToSet(Insts[ii].fixed)
-        /\ tabu = <<>> /\ it = 0 /\ st = "run"
+        /\ cf = NoCf /\ E = {} /\ tabu = <<>> /\ it = 0 /\ st = "init" /\ hist = <<>>
 
-L == Legal(C, N, E, tabu)
-Best == MaxOf({Delta(I, E, o) : o \in L})
+\* the statement quantifies over start graphs that are DAGs and already satisfy black list and in-degree bound
+GoodStart(c) == LET e0 == c.start \cup ToSet(I.fixed) IN
+                /\ Acyclic(N, e0)
+                /\ e0 \cap ToSet(I.black) = {}
+                /\ \A v \in N : Cardinality(Pa(e0, v)) <= c.maxin
+Pick == /\ st = "init"
+        /\ \E c \in [start : Starts(I), maxin : ToSet(I.maxins),
+                     tabu : IF Mode = "lemma" THEN {0} ELSE ToSet(I.tabus),
+                     eps : IF Mode = "lemma" THEN {1} ELSE ToSet(I.epss),
+                     maxiter : IF Mode = "lemma" THEN {0} ELSE ToSet(I.maxiters)] :
+              /\ GoodStart(c)
+              /\ cf' = c /\ E' = c.start \cup ToSet(I.fixed)
+        /\ st' = (IF Mode = "lemma" THEN "lemma" ELSE "run")
+        /\ UNCHANGED <<ii, tabu, it, hist>>
 
 MaxIter == /\ st = "run" /\ it = cf.maxiter
-           /\ st' = "maxiter" /\ UNCHANGED <<ii, cf, E, tabu, it>>
-Stop == /\ st = "run" /\ it < cf.maxiter
-        /\ (L = {} \/ Best < cf.eps)
-        /\ st' = "stopped" /\ UNCHANGED <<ii, cf, E, tabu, it>>
-Move(o) == /\ st = "run" /\ it < cf.maxiter
-           /\ o \in L /\ Delta(I, E, o) = Best /\ Best >= cf.eps
-           /\ E' = Apply(E, o)
-           /\ tabu' = Push(tabu, Undo(o), cf.tabu)
-           /\ it' = it + 1
-           /\ UNCHANGED <<ii, cf, st>>
-MoveAdd == \E o \in AllOps(N) : o.t = "+" /\ Move(o)
-MoveDel == \E o \in AllOps(N) : o.t = "-" /\ Move(o)
-MoveFlip == \E o \in AllOps(N) : o.t = "flip" /\ Move(o)
-Next == MaxIter \/ Stop \/ MoveAdd \/ MoveDel \/ MoveFlip
+           /\ st' = "maxiter" /\ UNCHANGED <<ii, cf, E, tabu, it, hist>>
+\* one iteration: the legal set and its deltas are computed once
+Iterate == /\ st = "run" /\ it < cf.maxiter
+           /\ LET l == Legal(C, N, E, tabu)
+                  d == [o \in l |-> Delta(I, E, o)]
+                  best == MaxOf({d[o] : o \in l})
+              IN IF l = {} \/ best < cf.eps
+                 THEN st' = "stopped" /\ UNCHANGED <<E, tabu, it, hist>>
+                 ELSE \E o \in {p \in l : d[p] = best} :
+                        /\ E' = Apply(E, o)
+                        /\ tabu' = Push(tabu, Undo(o), cf.tabu)
+                        /\ it' = it + 1
+                        /\ hist' = Append(hist, o)
+                        /\ st' = st
+           /\ UNCHANGED <<ii, cf>>
+Next == Pick \/ MaxIter \/ Iterate
 
-\* ---- invariants -------------------------------------------------------------
-Safe == ContractFailures(I, C, N, E0, E, cf.eps, 0, FALSE, cf.tabu) = {}
-Monotone == [][E' # E => Score(I, N, E') - Score(I, N, E) >= cf.eps]_vars
-LegalLemma == st = "run" => \A o \in AllOps(N) : StructLegal(C, N, E, o) <=> FastLegal(C, N, E, o)
-DeltaLemma == st = "run" => \A o \in AllOps(N) : Pre(E, o) => Delta(I, E, o) = Score(I, N, Apply(E, o)) - Score(I, N, E)
-NbrLemma == st = "run" =>
-    {Apply(E, o) : o \in {p \in AllOps(N) : Pre(E, p) /\ Acyclic(N, Apply(E, p))}}
-      = {F \in DagTab[Len(I.nodes)] : OneEdgeChange(E, F)}
+\* ---- invariants of the machine (Mode = "run") ---------------------------------
+Running == st \in {"run", "stopped", "maxiter"}
+Safe == Running => ContractFailures(I, C, N, E0, E, cf.eps, 0, FALSE, cf.tabu) = {}
+Monotone == [][E' # E /\ st = "run" => Score(I, N, E') - Score(I, N, E) >= cf.eps]_vars
 \* the property's local-optimality clause, stated on graphs (not on operations)
 LocalOptimum ==
     \A F \in DagTab[Len(I.nodes)] :
         OneEdgeChange(E, F) /\ Admissible(C, N, E, F) => Score(I, N, F) - Score(I, N, E) < cf.eps
-Terminal == st # "run" =>
+Terminal == st \in {"stopped", "maxiter"} =>
     /\ ContractFailures(I, C, N, E0, E, cf.eps, 0, st = "stopped", cf.tabu) = {}
     /\ (st = "stopped" /\ cf.tabu = 0 => LocalOptimum)
     /\ (st = "maxiter" => it = cf.maxiter)
+    /\ it = Len(hist)
 
-Emit == st # "run" =>
+\* ---- graph lemmas, checked on every admissible start graph (Mode = "lemma": every DAG) ----
+LegalLemma == st = "lemma" => \A o \in AllOps(N) : StructLegal(C, N, E, o) <=> FastLegal(C, N, E, o)
+DeltaLemma == st = "lemma" => \A o \in AllOps(N) : Pre(E, o) => Delta(I, E, o) = Score(I, N, Apply(E, o)) - Score(I, N, E)
+NbrLemma == st = "lemma" =>
+    {Apply(E, o) : o \in {p \in AllOps(N) : Pre(E, p) /\ Acyclic(N, Apply(E, p))}}
+      = {F \in DagTab[Len(I.nodes)] : OneEdgeChange(E, F)}
+\* legal operations lead to admissible graphs and every admissible neighbouring DAG is reached by a legal operation
+LegalIsAdmissible == st = "lemma" =>
+    {Apply(E, o) : o \in Legal(C, N, E, <<>>)} = {F \in DagTab[Len(I.nodes)] : OneEdgeChange(E, F) /\ Admissible(C, N, E, F)}
+
+Emit == st \in {"stopped", "maxiter"} =>
     PrintT(ToJson([id |-> I.id, start |-> cf.start, maxin |-> cf.maxin, tabu |-> cf.tabu, eps |-> cf.eps,
-                   maxiter |-> cf.maxiter, final |-> E, st |-> st, it |-> it,
+                   maxiter |-> cf.maxiter, final |-> E, st |-> st, it |-> it, ops |-> hist,
                    s0 |-> Score(I, N, E0), s1 |-> Score(I, N, E)]))
 =============================================================================
